@@ -46,9 +46,24 @@ Definition C05_roundtrip_full_statement : Prop :=
    Sharing is arbitrary: any sub-object (and CPython's cached small ints, type objects, ...) may occur any number of
    times (a DAG); the only requirement is that one label denotes one object (objs_wf: decidable).  The state get_state
    emits is loaded by get_tree + construct to exactly v, identity labels included -- the same sharing.
+   USER OBJECTS on the generic object path (object_get_state -> ObjectNode / ConstructorFromReduceNode): `PObj id m c HKNone [] ok arg`
+   for ANY class name m.c that resolves at load and from which the loader derives no hidden payload (plain_cls: decidable; excludes
+   frozenset / deque, finding D09) -- scipy sparse *arrays* (csr_array, coo_array, ...), scikit-learn estimators, pipelines, user
+   classes -- with  ok = OKState: arg = __getstate__() / __dict__, ANY value of the fragment: a dict with str keys, but also a
+   tuple, a list, a number, a falsy value, None (ObjectNode._construct tests the child node, not the state: every state but None
+   reaches __setstate__; the loaded value carries the state it was handed either way);  ok = OKNoState (neither __getstate__ nor
+   __dict__: no "content", cls.__new__(cls) only);  ok = OKReduce: __reduce__() == (type(obj), args), args a builtin tuple of values of
+   the fragment.  The state / the arguments are again any values of the fragment: nested objects (an estimator holding estimators)
+   and one object reachable from several places are covered by the same induction and the same memo invariant
+   (CodecShareFacts.objstate_Q / objreduce_Q / objnostate_Q).  WHAT "ROUND TRIP = Ok v" MEANS FOR AN OBJECT is the abstraction of
+   DESIGN 3.4: the loader resolves the SAME CLASS NAME and hands __setstate__ / __dict__.update (the constructor, for OKReduce) a
+   state (arguments) EQUAL to what the object handed out, sharing included.  That the real class, given that state, becomes an
+   object that hands out that state again is the class's own pickle contract (the hypothesis getset_contract of C07), not skops'.
    c05_guard = fragb (the fragment) && objs_wf (labels) && need v <= default_fuel (nesting depth below the fuel).
-   Still missing from the full statement: scipy sparse *arrays* (object path).  The statement is about the entry points: dumps_model (incl. the root
-   fields protocol/_skops_version of _save) does not raise and loads_model returns v.  The missing kinds are covered by the per-case evaluation `c05_case_same`
+   Every KIND of the property's grammar is inside the fragment now (scipy sparse arrays came in with the object path); `supported` and the
+   guard still differ by the guard's conditions on the environment (class names resolvable at load, key types known to D, one label = one
+   object, depth below the fuel), which is why the full statement above is kept as a Definition.  The statement is about the entry points: dumps_model (incl. the root
+   fields protocol/_skops_version of _save) does not raise and loads_model returns v.  Values outside the fragment are covered by the per-case evaluation `c05_case_same`
    and by the correspondence with the implementation (harness/props/c05.py). *)
 Theorem C05_roundtrip_partial :
   forall (F : cfacts) (D : denv) (base : Z) (v : pval),
@@ -136,6 +151,25 @@ Example C05_nonvacuous_objarr_ranks :
   /\ (do a <- dumps_model (wd Snapshot.current) wbase w_objarr_20; jindex (a_schema a) (s "content"))
      = Ok (JArr [list_state [] (wbase + 1); list_state [] (wbase + 2)]).
 Proof. split; vm_compute; reflexivity. Qed.
+
+(* non-vacuity for user objects: a scipy sparse *array* (state = its __dict__); a user class whose state is a dict holding a list that
+   also occurs outside the object; ONE object `o` reachable from three places (twice in a list, once as an attribute of another object:
+   written once, referenced twice); states that are not dicts (a tuple, the int 0, False, None, an empty tuple); an object without
+   state; a __reduce__ constructor object whose argument tuple holds the shared object.  The guard holds, `supported` holds, and the
+   round trip computed through dumps_model / get_tree / construct returns the value itself *)
+Example C05_nonvacuous_objects :
+  c05_guard wf (wd Snapshot.current) wbase w_objects = true /\ supported wf w_objects = true
+  /\ roundtrip Snapshot.registry Snapshot.current wf (wd Snapshot.current) wbase w_objects = Ok w_objects
+  /\ (do a <- dumps_model (wd Snapshot.current) wbase w_objects; Ok (map fst (a_members a))) = Ok [s "64.npy"; s "68.npy"].
+Proof. repeat split; vm_compute; reflexivity. Qed.
+
+(* a class from whose NAME the loader derives a hidden payload is outside (finding D09: frozenset / deque), and so is an object
+   whose __reduce__ / __getstate__ raises *)
+Example C05_objects_excluded :
+  supported wf w_frozenset = false /\ fragb wf (wd Snapshot.current) w_frozenset = false
+  /\ fragb wf (wd Snapshot.current) (PObj 1 (s "builtins") (s "frozenset") HKNone [] OKState (PScalar 5 SNone)) = false
+  /\ supported wf (PObj 1 (s "values") (s "RaisingState") HKNone [] (OKRaise EOther) pnone) = false.
+Proof. repeat split; vm_compute; reflexivity. Qed.
 
 (* an object array with 257 cells: len(obj) is not a cached small int, the shape tuple holds a fresh int object *)
 Example C05_nonvacuous_objarr_long :
